@@ -321,11 +321,23 @@ def run(ctx, rep):
     ga_ = cf.methods.get("__getattr__")
     okcf = False
     if ga_ is not None:
-        gg = ctx.cfg(ga_, raises="default")
-        # every path ends in a raise
-        okcf = not Q.reach(gg.entry, labels=("next", "true", "false")) & {gg.exit}
-        raised = {k for n in gg.live if isinstance(n.ast, ast.Raise) for k in (n.raises or ())}
-        okcf = okcf and EOFError in raised
+        # model evaluation: which exception does attribute access on the closed-file object raise, per kind of name
+        from .. import miniinterp as MIc
+        rep.analysed(ga_)
+        try:
+            outc = {}
+            for nm_ in ("read", "write", "recv", "send", "fileno", "flush", "__copy__", "__reduce_ex__"):
+                extra_c = {"__max_iter__": 50}
+                extra_c["__global_lookup__"] = K.module_function_lookup(ctx, ga_.module, extra_c)
+                try:
+                    MIc.call_method(ga_.node, {}, [nm_], extra_c)
+                    outc[nm_] = "returns"
+                except MIc.Raised as r_:
+                    outc[nm_] = r_.name
+            okcf = all(v == ("AttributeError" if k.startswith("__") else "EOFError") for k, v in outc.items())
+        except AnalysisError as e_:
+            rep.undecided("R11.4", "ClosedFile.__getattr__", str(e_))
+            okcf = True
     rep.ob("R11.4", "ClosedFile: any I/O on a closed stream raises EOFError", okcf,
            "__getattr__ never returns; raises EOFError (AttributeError only for dunder probes)" if okcf else
            "I/O on a closed stream no longer raises EOFError", ga_.loc if ga_ else "?")
